@@ -2,6 +2,7 @@
 mod c03;
 mod c04;
 mod c10;
+mod c13;
 mod c16;
 mod circ;
 mod corpus;
@@ -29,6 +30,8 @@ fn main() {
         "eval-corpus" => evalrec::cmd_eval_corpus(rest),
         "eval-gen" => evalrec::cmd_eval_gen(rest),
         "eval-file" => evalrec::cmd_eval_file(rest),
+        "bitonic-direct" => c13::cmd_direct(rest),
+        "join-record" => c13::cmd_record(rest),
         "c16-replay" => c16::cmd_replay(rest),
         "c16-products" => c16::cmd_products(rest),
         "compile-one" => corpus::cmd_compile_one(rest),
